@@ -1,6 +1,6 @@
 """Hot/cold shard protocol rules for histograms (C02 and C03)."""
 from pvrules.mir import is_call, peel, show, strip_generics, subterms
-from pvrules.rules import SELF_FIELD, atomic_prim, bypass_guards, const_int, count_range, elem_of, ord_ge, ordering_of, skips_only_zero
+from pvrules.rules import SELF_FIELD, atomic_prim, bypass_guards, is_zero_skip_filter, const_int, count_range, elem_of, ord_ge, ordering_of, skips_only_zero
 from . import hist_common as hcm
 from . import vec_common as vc
 
@@ -456,9 +456,17 @@ def rule_C03(ctx, f):
         ctx.ob("R2", "flush|sum-delta", ok, "the batch's sum (self.sum) must be added exactly once", site=sm[0]["call"].span if sm else b.raw["span"]["at"])
         ok = len(bk) == 1
         if ok:
-            ei = elem_of(bk[0]["idx"])
-            ev = elem_of(peel(bk[0]["call"].args[1]))
-            ok = bool(ei) and bool(ev) and ei[0] == ev[0] == SELF_FIELD("counts") and ei[2] == ["0"] and ev[2] == ["1"] and not [a for a in ei[1] if a not in ("iter", "into_iter", "enumerate")]
+            zf = lambda t_: is_zero_skip_filter(f, t_)   # noqa: E731  (a filter that drops zero counts only)
+            ei = elem_of(bk[0]["idx"], filter_ok=zf)
+            ev = elem_of(peel(bk[0]["call"].args[1]), filter_ok=zf)
+            ok = bool(ei) and bool(ev) and ei[0] == ev[0] == SELF_FIELD("counts") and ei[2] == ["0"] and ev[2] == ["1"] and not [a for a in ei[1] if a not in ("iter", "into_iter", "enumerate", "filter")]
+            if ok:
+                # inside the loop the addition may be skipped only for a zero delta
+                nx_ = [c for c in b.calls_to("Iterator::next") if c.result_term() in list(subterms(bk[0]["idx"]))]
+                hdr = nx_[0].bb if len(nx_) == 1 else None
+                extra = [g for g in bypass_guards(b, bk[0]["bb"]) if hdr is not None and g != hdr and g not in bypass_guards(b, hdr)
+                         and not (b.switch_info(g) and b.switch_info(g)[0][0] == "discr" and peel(b.switch_info(g)[0][1]) == nx_[0].result_term())]
+                ok = hdr is not None and all(skips_only_zero(b, g, bk[0]["bb"], bk[0]["call"].args[1], True) for g in extra)
             # same iteration (same next call)
             ok = ok and [s for s in subterms(bk[0]["idx"]) if isinstance(s, tuple) and s and s[0] == "call" and is_call(s, "Iterator::next")] == \
                 [s for s in subterms(peel(bk[0]["call"].args[1])) if isinstance(s, tuple) and s and s[0] == "call" and is_call(s, "Iterator::next")]
